@@ -216,17 +216,11 @@ func (p *Prog) genRules(r *vlib.Rand, o GenOpts) {
 		if d.Float {
 			ops = []string{"set", "set", "del"}
 		}
-		if o.Expire {
-			ops = append(ops, "expire")
-		}
 		if len(d.Keys) == 0 {
-			// del of a scalar is legal but leaves nothing to observe; keep it rare
-			if r.Chance(70) {
-				ops = ops[:len(ops)-1]
-				if o.Expire && r.Chance(50) {
-					ops = append(ops, "expire")
-				}
-			}
+			// `del` needs an indexed expression ("Cannot delete this" otherwise)
+			ops = ops[:len(ops)-1]
+		} else if o.Expire {
+			ops = append(ops, "expire")
 		}
 		s := Stmt{Op: vlib.Pick(r, ops), M: m}
 		switch s.Op {
